@@ -164,6 +164,11 @@ def check_table(part: Part, table, paths, hosts=("example.com",)):
     except BuildError:
         part.count("tables_refused_by_api")
         return
+    except Exception as ex:  # noqa: BLE001
+        # not a refusal (ValueError/RuntimeError/AssertionError with a reason): the registration API fell over
+        part.violation(f"C14:table-cannot-be-built:{type(ex).__name__}",
+                       f"table {table!r}: building it raises {ex!r}", {"kind": "table", "table": table, "paths": [], "hosts": list(hosts)})
+        return
     part.count("tables")
     part.state(repr(table))
     feat = None
@@ -265,6 +270,13 @@ def sections(quick):
                 for par in entries(["/a", "/{x}", "/a/{y}"], ["G", "P"]):
                     yield [par, ("dom", dom, [r])]
                     yield [("dom", dom, [r]), par]
+        # a domain application inside an application mounted on a prefix
+        for dom in ("example.com", "*.example.com"):
+            for r in entries(["/b", "/{x}", "/"], ["G", "P"]):
+                for par in [None] + entries(["/b", "/{x}"], ["G"]):
+                    yield [("sub", "/a", [("dom", dom, [r])] + ([par] if par else []))]
+                    if par:
+                        yield [("sub", "/a", [par, ("dom", dom, [r])])]
     yield "domains", domtables(), ("example.com", "other.com", "EXAMPLE.COM", "example.com:8080", "sub.example.com", "SUB.Example.com", "example.com:80")
 
 
@@ -432,6 +444,8 @@ def replay(case):
     elif case["kind"] == "resolve":
         table = _tuplify(case["table"])
         check_table(part, table, [case["path"]], (case["host"],))
+    elif case["kind"] == "table":
+        check_table(part, _tuplify(case["table"]), case["paths"], tuple(case["hosts"]))
     elif case["kind"] == "urlfor":
         part = _job_urlfor(((case["mount"],), [case["template"]]))
     else:
